@@ -918,9 +918,25 @@ loop:
 					continue
 				}
 
+				// An id below the latest one is not a new stream, and is wrong
+				// whether or not there is room for one more.
+				if fr.Stream() < sc.lastID {
+					sc.writeGoAway(fr.Stream(), ProtocolError, "stream ID is lower than the latest")
+
+					if canCloseAfterGoAway() {
+						break loop
+					}
+
+					continue
+				}
+
 				// if the client has more open streams than the maximum allowed OR
 				//   the connection is closing, then refuse the stream
-				if openStreams >= int(sc.st.maxStreams) || wasClosing {
+				//
+				// Only HEADERS opens a stream, so only HEADERS can be one stream
+				// too many: any other frame on an id that is not in use keeps
+				// the answer its type and the state of that id call for.
+				if (fr.Type() == FrameHeaders && openStreams >= int(sc.st.maxStreams)) || wasClosing {
 					if sc.debug {
 						if wasClosing {
 							sc.logger.Printf("Closing the connection. Rejecting stream %d\n", fr.Stream())
@@ -939,16 +955,6 @@ loop:
 
 					if derr := sc.discardFrame(fr); derr != nil {
 						sc.writeError(nil, derr)
-						break loop
-					}
-
-					continue
-				}
-
-				if fr.Stream() < sc.lastID {
-					sc.writeGoAway(fr.Stream(), ProtocolError, "stream ID is lower than the latest")
-
-					if canCloseAfterGoAway() {
 						break loop
 					}
 
